@@ -42,14 +42,17 @@ Qed.
 
 Lemma ckey_eqb_eq : forall a b, ckey_eqb a b = true <-> a = b.
 Proof.
-  intros [x|k x] [y|k' y]; cbn [ckey_eqb]; split; intros H; try discriminate.
+  intros [x|r1 p1 e1 m1 x] [y|r2 p2 e2 m2 y]; cbn [ckey_eqb]; split; intros H; try discriminate.
   - apply (list_eqb_eq _ veqb_eq) in H. subst. reflexivity.
   - inversion H; subst. apply (list_eqb_eq _ veqb_eq). reflexivity.
-  - apply andb_true_iff in H. destruct H as [Hk Hx].
-    apply teqb_eq in Hk. apply (list_eqb_eq _ veqb_eq) in Hx. subst. reflexivity.
-  - inversion H; subst. apply andb_true_iff. split.
-    + apply teqb_refl.
-    + apply (list_eqb_eq _ veqb_eq). reflexivity.
+  - apply andb_true_iff in H. destruct H as [H Hx].
+    apply andb_true_iff in H. destruct H as [H Hm].
+    apply andb_true_iff in H. destruct H as [H He].
+    apply andb_true_iff in H. destruct H as [Hr Hp].
+    apply teqb_eq in Hr. apply teqb_eq in Hp. apply teqb_eq in He. apply teqb_eq in Hm.
+    apply (list_eqb_eq _ veqb_eq) in Hx. subst. reflexivity.
+  - inversion H; subst. rewrite !teqb_refl. cbn [andb].
+    apply (list_eqb_eq _ veqb_eq). reflexivity.
 Qed.
 
 Lemma ckey_eqb_refl : forall a, ckey_eqb a a = true.
@@ -172,8 +175,8 @@ Qed.
 Theorem decide_eqv : forall ptab s1 s2, dec_eqv s1 s2 ->
   forall k, decide ptab s1 k = decide ptab s2 k.
 Proof.
-  intros ptab s1 s2 (He & Hx & Hf & Hm) [rv|sfx rv]; cbn [decide];
-    unfold enforce, enforce_with_ctx, enforce_plain, enforce_ctx;
+  intros ptab s1 s2 (He & Hx & Hf & Hm) [rv|rk pk ek mk rv]; cbn [decide];
+    unfold enforce, enforce_with_ctx4, enforce_plain;
     rewrite He, Hx, Hf; apply enforce_core_view, Hm.
 Qed.
 
